@@ -7,6 +7,7 @@ import Blackbird.Load
 import Blackbird.ErrorListener
 import Blackbird.Unparse
 import Blackbird.Instantiate
+import Blackbird.ATN
 import Blackbird.UnparseTdm
 
 open Blackbird
@@ -94,6 +95,19 @@ def encSubstR (text : String) (kwargs : List (String × Val Float)) : String :=
     let lay := List.replicate sc'.items.length ((1 : Nat), ([] : List Nat))
     " ".intercalate ((sc'.toks ⟨0, 0, 0, 0, [], dev⟩ lay 1).map encTok)
 
+/-- ATNDEC: the decoded form of a serialised ATN (space-separated numbers), for comparison with what ANTLR's own
+`ATNDeserializer` makes of the same numbers -/
+def encATN (data : String) : String :=
+  let nums := (data.splitOn " ").filterMap String.toNat?
+  match Blackbird.ATN.decode nums with
+  | none => "undecodable"
+  | some A =>
+    let st := " ".intercalate (A.states.map fun s => s!"{s.stype}:{s.rule}")
+    let ed := " ".intercalate (A.edges.map fun e => s!"{e.src}:{e.trg}:{e.ttype}:{e.a1}:{e.a2}:{e.a3}")
+    let sets := " ".intercalate (A.sets.map fun rs => ",".intercalate (rs.map fun p => s!"{p.1}-{p.2}"))
+    let nat (l : List Nat) := " ".intercalate (l.map toString)
+    s!"gt={A.grammarType};max={A.maxTok};states={st};edges={ed};sets={sets};decisions={nat A.decisions};rulestart={nat A.ruleStart};ruletok={nat A.ruleTok};modes={nat A.modes};rest={A.rest.length}"
+
 /-- a history of `loads` calls in one process: tables threaded from call to call -/
 def runHistory (fs : FS) : List String → Tables Float → List String → List String
   | [], _, acc => acc.reverse
@@ -172,6 +186,7 @@ def handle (line : String) : String :=
         | some k => match decKw k with
                     | none => "bad-kw"
                     | some kwargs => encSubstR text kwargs
+      | "ATNDEC", [data] => encATN data
       | "GRAPH", [prog] =>
         withProgram prog fun p =>
           let (g, p') := toDiGraph p
